@@ -101,11 +101,11 @@ def _trip_count(xs: T) -> T:
 
 def _row_canon(t: T) -> T:
     """the site a block scales, written one way: table[x, k] (x the scanned scalar, k a literal column) is table[x][k]"""
-    t = _scanned_rows(strip_wrappers(t))
+    t = strip_wrappers(t)
     if t.op == "getitem" and t.args[1].op == "tuple" and len(t.args[1].args) == 2 and \
             t.args[1].args[1].op == "const" and isinstance(t.args[1].args[1].args[0], int) and t.args[1].args[0].op != "slice":
-        return getitem(getitem(t.args[0], t.args[1].args[0]), t.args[1].args[1])
-    return t
+        t = getitem(getitem(t.args[0], t.args[1].args[0]), t.args[1].args[1])
+    return _scanned_rows(t)
 
 
 def _hs_name(t: T) -> str:
